@@ -724,7 +724,8 @@ class Quaternion(SMUserList):
             10.000000 < 12.000000, 14.000000, 16.000000 >
         """
         # results is not in the group, return an array, not a class
-        assert isinstance(left, type(right)), 'operands to + are of different types'
+        if not (isinstance(right, Quaternion) or base.isscalar(right)):
+            raise ValueError('operands to + are of different types')
         return Quaternion(left.binop(right, lambda x, y: x + y))
 
     def __sub__(left, right):  # lgtm[py/not-named-self] pylint: disable=no-self-argument
@@ -785,7 +786,8 @@ class Quaternion(SMUserList):
         """
         # results is not in the group, return an array, not a class
         # TODO allow class +/- a conformant array
-        assert isinstance(left, type(right)), 'operands to - are of different types'
+        if not (isinstance(right, Quaternion) or base.isscalar(right)):
+            raise ValueError('operands to - are of different types')
         return Quaternion(left.binop(right, lambda x, y: x - y))
 
     def __neg__(self):
